@@ -12,7 +12,10 @@ history (add / update / remove / rename of constraints between `schedule()` call
 post-charging hook of a simulation) on a fresh `ChargingNetwork` of its own (`_Truth`) and judges every call
 against that network.  The model, in contrast, is fed what the Interface handed out (that is the algorithm's
 input), so a stale / wrong view in the Interface shows as an oracle failure, not as a disagreement.
-C08 adds its own stream of NETWORK HISTORIES on one Simulator/Interface (`_gen_history`, `_run_history`).
+C08 adds its own stream of NETWORK HISTORIES on one Simulator/Interface (`_gen_history`, `_run_history`) and the class
+ONE ALGORITHM OBJECT, SEVERAL NETWORKS (`_gen_multi`, `_run_multi`): the algorithm object of a case has served other
+networks (same station ids, other EVSEs / voltages / constraints / sessions) before; only the last use is judged, against
+its own network, and modelled by an independent model call.
 
 "Own bound": the clauses of the property are relative to each session's OWN bound.  The oracle computes it from first
 principles (`_own_bounds`): the session as handed to schedule(), its EVSE's maximum / minimum pilot, its remaining
@@ -35,7 +38,7 @@ from core import impl as I
 from props import C07 as B
 
 ID = "C08"
-LEAN_MODULES = ["AcnProofs.C08", "AcnProofs.C08Est"]
+LEAN_MODULES = ["AcnProofs.C08", "AcnProofs.C08Est", "AcnProofs.C08Multi"]
 TIE_MODULES = ["AcnProofs.Lemmas.CodeTieSorted"]
 DRIVER = "drv_C08"
 REQUIRED_THEOREMS = [
@@ -49,6 +52,8 @@ REQUIRED_THEOREMS = [
     "Acn.C08.greedy_sequential_any_estimator", "Acn.C08.greedy_max_feasible_any_estimator",
     "Acn.C08.greedy_max_feasible_any_estimator_alg", "Acn.C08.greedy_discrete_largest_any_estimator",
     "Acn.C08.rr_stop_iff_blocked_any_estimator",
+    # one algorithm object, several networks: the modelled algorithms have no memory (AcnProofs/C08Multi.lean)
+    "Acn.C08.no_memory_across_networks",
 ]
 BUDGET = {"quick": 700, "thorough": 5000, "search": 1000}
 TRUSTED = B.TRUSTED + [
@@ -94,7 +99,21 @@ RULE = B.RULE + ("; C08 counts a case as non-trivial when some grant is strictly
                  "with the stateful estimator under a binding pod limit (2 stations x kinds x 2 limits x 36 answer pairs x "
                  "algorithms x fcfs/lcfs x uninterrupted); the oracle derives every session's own bound from the "
                  "estimator's dict + EVSE + demand and judges greedy (max feasible within the own bound, exact largest "
-                 "level) and round robin (replay: stops only when blocked or at the own bound) against it")
+                 "level) and round robin (replay: stops only when blocked or at the own bound) against it; "
+                 "ONE ALGORITHM OBJECT, SEVERAL NETWORKS (a third private sub-generator, max(24, n/28) groups x 4 cases, "
+                 "the streams above are unchanged; 12 corpus cases): per group three independently drawn networks A, B, C "
+                 "that re-use the station ids st-0.. with other EVSE classes (continuous <-> finite), maximum pilots (half of "
+                 "the EVSEs from a pool of maxima 16..80 A), voltages, lines, constraints and sessions, each used through "
+                 "direct calls, a network history or a whole Simulator.run, and ONE UncontrolledCharging (25 %) / "
+                 "SortedSchedulingAlgo / RoundRobin object that is handed to a new Simulator per network; cases: B after A, "
+                 "A after B, C after A and B, A after A and B (return); in 60 % of the direct groups the first call on B "
+                 "carries exactly the SET of session ids of the first call on A in another priority order, under a binding "
+                 "pod limit; estimators: none, a table estimator (stateless / stateful, the same object for every network) "
+                 "or SimpleRampdown (its dict is estimator state, an input: replaced or emptied by the caller before each "
+                 "further use); the LAST use is the case proper -- modelled by an independent model call (the model has no "
+                 "memory), whole simulations also through the composition model, and judged by every clause of the oracle "
+                 "against a network built from that use alone (uncontrolled: exactly the maximum pilot of the station as "
+                 "registered NOW); the infrastructure view the Interface hands out is checked against the case's stations")
 
 EPS = 0.01          # eps passed to max_feasible_rate by sorting_algorithm (Gen.Consts.greedyEps)
 ATOL, RTOL = 1e-5, 1e-7
@@ -543,7 +562,7 @@ def _use_sessions(u):
     return out
 
 
-def _align_sessions(rng, a, b):
+def _align_sessions(rng, a, b, exact=False):
     """make the FIRST call of b carry exactly the session ids of the first call of a (assigned at random, so the
     priority order among them differs): the same SET of session ids on another network"""
     ea, eb = a["calls"][0]["evs"], b["calls"][0]["evs"]
@@ -565,6 +584,15 @@ def _align_sessions(rng, a, b):
         c0 = u["calls"][0]
         c0["order"] = list(range(len(c0["evs"])))
         rng.shuffle(c0["order"])
+        # a pod limit over the stations of these sessions that binds at their full load: the order decides who gets what
+        by_id = {st["id"]: st for st in u["stations"]}
+        load = {e["station"]: B._session_load(by_id[e["station"]], e, u["period"]) for e in c0["evs"]}
+        coef = {st: 1.0 for st in load}
+        full = _row_full(coef, load, {st: math.radians(by_id[st]["phase"]) for st in load})
+        if full > 1 and rng.random() < 0.8:
+            lim = full * rng.uniform(0.35, 0.8)
+            u["constraints"] = [{"name": "multi-pod", "coef": coef, "limit": float(max(1, round(lim))) if exact else lim}] \
+                + u["constraints"]
     return True
 
 
@@ -614,9 +642,10 @@ def _gen_multi(rng, groups):
                 uses.append(u)
         aligned = False
         if modes[0] != "sim" and modes[1] != "sim" and rng.random() < 0.6:
-            aligned = _align_sessions(rng, uses[0], uses[1])
+            aligned = _align_sessions(rng, uses[0], uses[1], exact)
         if cfg["estimate"] and cfg["algo"] != "uncontrolled":
             r = rng.random()
+            cfg["ramp_reset"] = rng.choice(["fresh", "clear"])
             if r >= 0.4:          # a table estimator: the SAME estimator object for every network
                 cfg["est_spec"] = _multi_est_spec(rng, uses)
                 if r >= 0.7 and "sim" not in modes:
@@ -639,13 +668,13 @@ def _multi_corpus():
         stations = [{"id": f"st-{j}", "line": "AB", "evse": e, "volt": volt, "phase": 0.0} for j, e in enumerate(evses)]
         evs = [{"session": f"sess-{j}", "station": f"st-{j}", "arrival": arrivals[j], "departure": t + 9 - j,
                 "est": t + 3 + 2 * arrivals[j], "requested": 30.0, "delivered": 1.0 + j, "prev_pilot": 0, "rate": 0,
-                "max_override": None} for j in range(len(evses))]
+                "max_override": None} for j in range(len(arrivals))]
         return {"mode": "direct", "period": 5, "stations": stations,
                 "constraints": [{"name": "pod", "coef": {s["id"]: 1.0 for s in stations}, "limit": lim}],
                 "calls": [{"time": t, "evs": evs, "order": list(range(len(evs)))}]}
     a = use([{"t": "cont", "min": 0, "max": 32}, {"t": "finite", "rates": B.CC}], 208, 40.0, [0, 1], 4)
     b = use([{"t": "finite", "rates": [0, 8, 16]}, {"t": "cont", "min": 0, "max": 48}, {"t": "cont", "min": 0, "max": 24}],
-            240, 50.0, [2, 1, 0], 4)
+            240, 50.0, [2, 1], 4)      # st-2 stays idle: the same SET of session ids
     out = []
     for algo, sort, un in (("uncontrolled", "fcfs", False), ("greedy", "fcfs", False), ("greedy", "edf", True),
                            ("rr", "lcfs", False)):
@@ -834,10 +863,11 @@ def _drive_sim(case, net, rec, algo):
 # "stations", "constraints", "calls" | "evs" [, "updates", "max_recompute"]).  For every use a new ChargingNetwork and
 # a new Simulator are built and the SAME algorithm object is handed to the Simulator (which registers a new Interface
 # with it).  Estimators: a table estimator (stateless or stateful) is the same object throughout (what it returns is an
-# input of the model and of the oracle); SimpleRampdown's dict is estimator STATE (an input of the property): the
-# caller installs a fresh SimpleRampdown on the algorithm object before each further use.
+# input of the model and of the oracle); SimpleRampdown's dict is estimator STATE (an input of the property): before each
+# further use the caller either installs a fresh SimpleRampdown on the algorithm object or ("ramp_reset": "clear") keeps
+# the estimator object and empties its `upper_bounds`.
 
-CFG_KEYS = ("algo", "sort", "uninterrupted", "estimate", "inc", "ramp", "est_spec")
+CFG_KEYS = ("algo", "sort", "uninterrupted", "estimate", "inc", "ramp", "est_spec", "ramp_reset")
 
 
 def _run_multi(case):
@@ -854,7 +884,10 @@ def _run_multi(case):
     obs, prior = None, []
     for n, u in enumerate(uses):
         if n > 0 and rampdown:
-            algo.max_rate_estimator = Ramp(case["ramp"]["up"], case["ramp"]["down"], case["ramp"]["inc"])
+            if case.get("ramp_reset") == "clear":       # the same estimator object, its dict emptied by the caller
+                algo.max_rate_estimator.upper_bounds = {}
+            else:
+                algo.max_rate_estimator = Ramp(case["ramp"]["up"], case["ramp"]["down"], case["ramp"]["inc"])
         net = B.build_network(u)
         rec.net, rec.calls, rec.dynamic, rec.order_log, rec.est_log = net, [], True, None, None
         obs = (_drive_sim if u["mode"] == "sim" else _drive_direct)(u, net, rec, algo)
@@ -1247,7 +1280,7 @@ def _est_own_features(case, obs, c, idx):
 def _multi_features(case, obs):
     out = ["multi:" + case["multi"].split(":")[0], "multi_uses:%d" % (len(case["prior_uses"]) + 1),
            "multi_algo:" + case["algo"], "multi_judged_use:" + case["mode"] + (":history" if case.get("history") else ""),
-           "multi_estimator:" + ("none" if not case["estimate"] else "rampdown_fresh_per_use" if case.get("est_spec") is None
+           "multi_estimator:" + ("none" if not case["estimate"] else ("rampdown_" + str(case.get("ramp_reset")) + "_per_use") if case.get("est_spec") is None
                                  else "table_stateful_same_object" if case["est_spec"].get("stateful") else "table_same_object")]
     for p in obs.get("prior") or []:
         out.append("multi_prior_use:" + p["mode"] + (":with_scheduler_error" if p["errs"] or p["sim_err"] else ""))
